@@ -7248,6 +7248,7 @@ class Parser:
         args = self._parse_function_args(alias=False)
         if not args:
             self.raise_error("Expected at least one argument")
+            return exp.Paren()
 
         # Wrapped so the connector keeps its precedence in the parent context
         return exp.Paren(this=connector(*args, copy=False))
